@@ -654,6 +654,7 @@ class FruDevices:
 
     def __init__(self):
         self.mem = {}
+        self.maxret = 255    # a conforming device may answer a read with FEWER bytes than asked ("count returned")
 
     def handler(self, netfn, cmd, lun, data, req):
         if netfn != 0x0a or not data or data[0] not in self.mem:
@@ -665,6 +666,7 @@ class FruDevices:
             off, n = data[1] | data[2] << 8, data[3]
             if off + n > len(m):
                 return bytes([0xc9])
+            n = min(n, self.maxret) if n else n
             return bytes([0, n]) + bytes(m[off:off + n])
         if cmd == 0x12 and len(data) >= 3:
             off, d = data[1] | data[2] << 8, data[3:]
@@ -705,6 +707,9 @@ def run_history(calls, on_read=None):
             return ('exc', exc_name(e))
 
     for n, c in enumerate(calls):
+        if c['op'] == 'dev':      # the device answers reads with at most this many bytes from now on
+            dev.maxret = max(1, int(c['maxret']))
+            continue
         fru = c['fru']
         if c['op'] in ('set', 'write'):
             inv = inv_from_json(c['inv'])
@@ -1030,6 +1035,8 @@ def run(ctx):
         frus = rng.sample([0, 1, 2, 5, 17, 254], 2)
         pool = {f: layouts(rng) for f in frus}
         calls = []
+        if hno % 2:   # every second history: a device that returns short answers (1..31 bytes per read)
+            calls.append({'op': 'dev', 'maxret': rng.choice([1, 2, 3, 5, 7, 8, 15, 16, 20, 31])})
         for f in frus:
             calls.append({'op': 'set', 'fru': f, 'obj': 0, 'inv': inv_to_json(pool[f][0])})
         for f in frus:
@@ -1076,7 +1083,7 @@ def run(ctx):
                 'bytes incl. PICMG, parsed as bytes, array and file and compared with the encoded values (oracle) and with the '
                 'model in Coq; the Coq encoder must give the same bytes; single-byte alterations: per image every position x 3-4 '
                 'values (thorough: all 255 for 20 images), rejection required inside checksummed regions; 3 vendor images; '
-                'device path: histories of set/write_fru_data/get_fru_inventory over 2 fru ids and 2 Ipmi objects, every read judged '
+                'device path: histories of set/write_fru_data/get_fru_inventory over 2 fru ids and 2 Ipmi objects (every second history on a device that answers reads with fewer bytes than asked, 1..31 per read), every read judged '
                 'against the image the device holds then (oracle, shrunk in fresh processes) and against the model; '
                 'malformed stream. distinct = distinct canonical inputs; non-trivial = non-empty payload')
     pick = [0, len(terms) // 4, len(terms) // 2, len(terms) - 1]
